@@ -279,6 +279,21 @@ pub fn random_op(db: &mut Database, ctx: &mut Ctx, rng: &mut Rng, allow_nonempty
                     take_child(parent_of(&mut db.root, id).unwrap(), id).unwrap();
                     db.deleted_objects.objects.push(DeletedObject { uuid: id, deletion_time: mk_time(t) });
                     return "delete-empty-group".into();
+                } else if allow_nonempty_group_delete && rng.chance(1, 3) {
+                    // empty the group first (every child moved to the group's parent, each move at its own
+                    // time), then delete the now-empty group: the other replica still has the children inside
+                    let pid = parent_of(&mut db.root, id).unwrap().uuid;
+                    let kids: Vec<Uuid> = group_mut(&mut db.root, id).unwrap().children.iter().map(|c| match c { Node::Entry(e) => e.uuid, Node::Group(g) => g.uuid }).collect();
+                    for k in kids {
+                        let tk = ctx.tick();
+                        let mut n = take_child(group_mut(&mut db.root, id).unwrap(), k).unwrap();
+                        match &mut n { Node::Entry(e) => e.times.set_location_changed(mk_time(tk)), Node::Group(g) => g.times.set_location_changed(mk_time(tk)) }
+                        group_mut(&mut db.root, pid).unwrap().children.push(n);
+                    }
+                    let td = ctx.tick();
+                    take_child(parent_of(&mut db.root, id).unwrap(), id).unwrap();
+                    db.deleted_objects.objects.push(DeletedObject { uuid: id, deletion_time: mk_time(td) });
+                    return "empty-out-and-delete-group".into();
                 } else if allow_nonempty_group_delete {
                     // delete a whole subtree the way KeePass does: a tombstone for every node in it,
                     // listed parent-first or child-first
